@@ -116,6 +116,53 @@ def c08():
     )
 
 
+# ------------------------------------------------------------------------------------------- C05 / C06 kernels
+def seqkern_queries(nn):
+    """seq/kern.cpp shapes: (N handles, K sequences, GONE mask, OP, PICK)"""
+    shapes = []
+    for n, tier in ((1, 'quick'), (2, 'quick'), (3, 'quick'), (4, 'thorough')):
+        for k in (1, 2):
+            for gone in range(1 << n):
+                if k == 2 and gone not in (0, 1, (1 << n) - 2):
+                    continue
+                shapes.append((n, k, gone, 0, 0, tier))
+                if n >= 2 and (tier == 'thorough' or gone in (0, 1, 2, 5)):
+                    for pick in range(n):
+                        for op in (1, 2, 4):
+                            shapes.append((n, k, gone, op, pick, tier))
+                if k == 1:
+                    shapes.append((n, k, gone, 3, 0, tier))
+    qs = []
+    for i, (n, k, gone, op, pick, tier) in enumerate(shapes):
+        qs.append(Q('seqkern_N%d_K%d_gone%d_op%d_pick%d' % (n, k, gone, op, pick), 'seq/kern.cpp', 10, tier=tier,
+                    defs={'VF_N': n, 'VF_K': k, 'VF_GONE': gone, 'VF_OP': op, 'VF_PICK': pick, 'VF_CLAIM': nn}, tv=(i % 7 == 0), timeout=300))
+    return qs
+
+
+SEQKERN_BOUND = ('seq/kern: N<=3 (quick) / 4 (thorough) real handles in 1..2 real sequences, every subset already retired, all 64-bit (L,H,count) per handle; '
+                 'one of {query, retire_predecessors, retire, sequence destruction, handle destruction} at every position')
+
+
+@prop('C05')
+def c05():
+    return dict(
+        queries=seqkern_queries(5),
+        level='model_checking',
+        level_text='Bounded: cost/order/eligibility of real sequence handles equal the reference for every retirement pattern and all counters; retire_predecessors / retire / release remove exactly the right handles.',
+        bound=SEQKERN_BOUND,
+    )
+
+
+@prop('C06')
+def c06():
+    return dict(
+        queries=seqkern_queries(6),
+        level='model_checking',
+        level_text='Bounded: is_completed() iff every listed handle is satisfied; sequence destruction reports once, non-fatally, exactly the listed expectations and detaches them; empty teardown is silent.',
+        bound=SEQKERN_BOUND,
+    )
+
+
 # ------------------------------------------------------------------------------------------- C10
 @prop('C10')
 def c10():
@@ -128,6 +175,26 @@ def c10():
         level_text='Bounded: param_matches(tree, x) equals the mathematical predicate for all 32-bit argument and operand values (and null / non-null pointers), for every matcher expression tree in the enumerated + drawn set of depth <= 3.',
         bound='expression trees of depth <=3 over eq/ne/lt/le/gt/ge (duck-typed and <int>), _, ANY(int), plain values, !, *, any_of/all_of/none_of with 1..3 operands, MEMBER_IS; all int values',
         outside='re(): the regular expression engine is libstdc++ and outside the claim; string operands',
+    )
+
+
+# ------------------------------------------------------------------------------------------- C18
+@prop('C18')
+def c18():
+    qs = []
+    for t in (0, 2, 3, 4, 5, 6):
+        qs.append(Q('print_T%d' % t, 'C18/print.cpp', 45, defs={'VF_T': t}, timeout=300))
+    quick_sizes = (1, 2, 7, 8, 9, 15, 16, 17, 31, 32, 33, 40)
+    for sz in range(1, 41):
+        qs.append(Q('hexdump_size%d' % sz, 'C18/print.cpp', 45, tier='quick' if sz in quick_sizes else 'thorough',
+                    defs={'VF_T': 1, 'VF_SIZE': sz}, tv=(sz % 8 == 1), timeout=300))
+    return dict(
+        queries=qs,
+        level='model_checking',
+        level_text='Bounded: print() on a stream with arbitrary prior (width<=64, any flags, any fill): leaves are inserted decimal/unpadded, the hex dump inserts exactly sizeof(T) bytes in order with the documented line breaks, null pointers print nullptr without dereference, pairs/tuples/collections are element-wise, printer<T> wins, and the prior state is restored after leaf / hex-dump prints.',
+        bound='int, opaque structs of 1..40 bytes (12 sizes quick, all thorough), char const*, int*, unique_ptr<int>, nullptr_t, pair, tuple<3>, nested pair with null, std::array<3>, C array, empty array, printer<T>; all values/bytes; all flags, fill, width<=64',
+        outside='node-based containers, std::string values, real character rendering (the token model records what is inserted and with which stream state; the native build compares exact text on replayed vectors)',
+        assumptions=['stream model rt/strings.inc: insertion tokens + (width, flags, fill) triple; formatted insertion resets width'],
     )
 
 
